@@ -12,11 +12,12 @@ PID = "C15"
 LEAN_MODULE = "NiVerif.Props.C15"
 NAMESPACE = "Props.C15"
 DRIVER = "drivers/C15.lean"
-GEN_MODULES = ["ExtProps"]
+GEN_MODULES = ["ExtProps", "Names"]
 EXTRA_LEAN_MODULES = ["NiVerif.Model.Names", "NiVerif.Props.ExtProps"]
 THEOREMS = ["names_spec", "read_reflects", "inv_step", "name_reflects_property", "splitComma_append", "split_join",
             "parse_join", "parse_length", "set_name_local", "indexOf_some", "indexOf_none", "lookup_by_name",
-            "Props.ExtProps.gen_setitem_notifies", "Props.ExtProps.gen_delitem_notifies", "Props.ExtProps.gen_merge_notifies_iff", "Props.ExtProps.gen_merge_line_names"]
+            "Props.ExtProps.gen_setitem_notifies", "Props.ExtProps.gen_delitem_notifies", "Props.ExtProps.gen_merge_notifies_iff", "Props.ExtProps.gen_merge_line_names",
+            "gen_get_line_names_eq_model", "gen_set_line_name_eq_model", "gen_on_changed"]
 RULE = ("seeded interleavings of name reads (populating the cache), name writes through signals[i].name, direct writes and "
         "deletes of NI_LineNames, appends whose sources carry NI_LineNames (property merge), load_data, pickling / "
         "deepcopy and signals[name] lookups, for signal counts 1-8 and name lists shorter, equal and longer than the "
